@@ -1014,7 +1014,8 @@ class DNA(symbolic.Object):
                   f'the dictionary {dict_repr!r}.')
 
             if isinstance(value, DNA):
-              children.append(value)
+              # NOTE: the DNA in the dict is not adopted by the new DNA.
+              children.append(value.clone(deep=True))
             else:
               choice_index = _choice_index(subchoice, value)
               subspace_dna = _make_dna(subchoice.candidates[choice_index])
